@@ -29,16 +29,41 @@ theorem c04_once (D : ExecStatic.Defects) (σ : Gate) (S : Schema) (d : Doc) (op
   unfold run
   split
   · simp [TRes.starts]
-  · exact (resolveContainerT_inv _ (keysNodup_repaired _ rfl) _ _ _ _ _ _ _ _).1
+  · exact (resolveContainerT_inv _ (fun _ => True) (keysNodup_repaired _ rfl) _ _ _ _ _ _ _ _ trivial).1
 
-/-- The same for the executor AS IT IS (one future per occurrence), for documents in which no
-    selection set collects a response key twice: `KeysNodup` = the field futures of every
-    selection set carry pairwise distinct keys. -/
-theorem c04_once_partial (g : Cfg) (hk : KeysNodup g) (serial : Bool) (fuel : Nat) (st rt : String) (id : Nat)
-    (sels : List Sel) (path : List PathSeg) (s : Nat) :
-    (resolveContainerT g serial fuel st rt id sels path s).starts.Nodup ∧
-    ∀ q ∈ (resolveContainerT g serial fuel st rt id sels path s).starts, path <+: q.1 :=
-  resolveContainerT_inv g hk fuel serial st rt id sels path s
+/-- no selection set reachable from `root` (through fields, inline fragments and the document's
+    fragments) collects a response key twice -/
+def NoRepeatedKeys (g : Cfg) (root : List Sel) : Prop :=
+  ∀ rt fuel st sels, Reach g.c.d root sels → ((ExecStatic.collect g.c rt fuel st sels).map (·.key)).Nodup
+
+/-- The same for the executor AS IT IS (one future per occurrence, `perOccurrence = true`), for
+    every schedule and every other defect setting, when the executed selection set repeats no
+    response key: no resolver is started twice for a parent position and key, and every start
+    lies at or below the position of the selection set. -/
+theorem c04_once_partial (g : Cfg) (hp : g.perOccurrence = true) (root : List Sel) (hk : NoRepeatedKeys g root)
+    (serial : Bool) (fuel : Nat) (st rt : String) (id : Nat) (path : List PathSeg) (s : Nat) :
+    (resolveContainerT g serial fuel st rt id root path s).starts.Nodup ∧
+    ∀ q ∈ (resolveContainerT g serial fuel st rt id root path s).starts, path <+: q.1 := by
+  have hK : KeysNodupOn g (Reach g.c.d root) := by
+    intro rt' fuel' st' sels hr
+    simp only [occsOf, hp, if_true]
+    exact ⟨hk rt' fuel' st' sels hr, collect_reach g.c root rt' fuel' st' sels hr⟩
+  exact resolveContainerT_inv g _ hK fuel serial st rt id root path s Reach.refl
+
+/-- the hypothesis of `c04_once_partial` is satisfiable: the selection set `{ inc }` -/
+example (g : Cfg) : NoRepeatedKeys g [Sel.field none "inc" [] [] [] ⟨1, 12⟩] := by
+  intro rt fuel st sels hr
+  have hs : sels = [Sel.field none "inc" [] [] [] ⟨1, 12⟩] ∨ sels = [] := by
+    induction hr with
+    | refl => left; rfl
+    | field _ hm ih =>
+      rcases ih with rfl | rfl
+      · simp only [List.mem_singleton, Sel.field.injEq] at hm
+        right; exact hm.2.2.2.2.1
+      · simp at hm
+    | inline _ hm ih => rcases ih with rfl | rfl <;> simp at hm
+    | spread _ hm _ ih => rcases ih with rfl | rfl <;> simp at hm
+  rcases hs with rfl | rfl <;> cases fuel <;> simp [ExecStatic.collect]
 
 /-- Every event of a (sub-)execution — in particular every resolver start and end below a
     field — happens between the round in which the execution is started and the round in which
